@@ -1,7 +1,341 @@
-import Gama.Gen.Linearization
-namespace Gama.Props.C05
-open Gama Gama.Lin
+/-
+  C05 — Linearised observation equations equal the true Jacobian and misclosure.
 
-theorem placeholder : Gen.Lin.maxSize = 6 := rfl
+  Every theorem is about the definitions in `Gama/Gen/Linearization.lean`, which the check
+  regenerates from /repo/lib/gnu_gama/local/local_linearization.cpp and bearing.cpp on every
+  run, instantiated at ℝ (`Gama/Lemmas/LinSpec.lean`: `sqrt := Real.sqrt`,
+  `atan2 y x := Complex.arg (x + iy)`, `acos := Real.arccos`, `M_PI := π`).
+  Vocabulary (`LinSpec.lean`): `IsPartial unit F o r c v` — `v` is the derivative at 0 of
+  `t ↦ unit · F(o with unknown (r,c) corrected by t)`, coordinates corrected in mm, the
+  orientation in cc; `IsPartialBearing/IsPartialAngle` — the same for *any* differentiable
+  choice of polar angle starting at the code's bearing; `IsWrapOf a r` — `r ≡ a (mod 400 gon)`,
+  `-200 gon < r ≤ 200 gon`; `freeAt` — the unknown is adjusted (free or constrained).
+
+  Exclusions are the code's own: `bearing_distance` zeroes bearing and distance when
+  `d < 1e-6` (hypothesis `¬ hdist o < CUT`), `s_distance` throws iff `sd = 0`, `z_angle`
+  throws iff `d = 0 ∨ sd = 0`.  The `while` loops carry fuel; `*_terminates` shows that over
+  ℝ enough fuel exists and `wrap_fuel_irrelevant` that the result does not depend on it.
+
+  History: on the code as first pinned two statements failed and their negations were proved
+  here with witnesses replayed on the C++ (F12: the angular right-hand side lay in the closed
+  interval, both ends attained; F16: zenith readings above 200 gon had all six coefficients
+  with the wrong sign).  Both were repaired in /repo (commits 60fa02b, aa064d3); the theorems
+  below are the full statements about the repaired code, the former witnesses are regression
+  inputs (corpus/C05/, `west_misclosure_maps_to_plus_half`, the 300-gon example).
+-/
+import Gama.Lemmas.LinReal
+namespace Gama.Props.C05
+open Gama Gama.Lin Real
+
+/-! ## horizontal distance -/
+
+theorem distance_coeff (fuel : Nat) (o : Obs ℝ) (out : LinOut ℝ) (h : ¬ hdist o < CUT)
+    (hok : Gen.Lin.distance fuel o = .ok out) :
+    ∀ p ∈ out.pushes, IsPartial MM hdist o p.1 p.2.1 p.2.2 := Lin.distance_coeff fuel o out h hok
+
+theorem distance_rhs (fuel : Nat) (o : Obs ℝ) (out : LinOut ℝ) (h : ¬ hdist o < CUT)
+    (hok : Gen.Lin.distance fuel o = .ok out) : out.rhs = MM * (o.value - hdist o) :=
+  Lin.distance_rhs fuel o out h hok
+
+theorem distance_only_free (fuel : Nat) (o : Obs ℝ) (out : LinOut ℝ) (h : ¬ hdist o < CUT)
+    (hok : Gen.Lin.distance fuel o = .ok out) :
+    targets out.pushes = [(.pfrom, .y), (.pfrom, .x), (.pto, .y), (.pto, .x)].filter (freeAt o) :=
+  (Lin.distance_targets fuel o out h hok).1
+
+theorem distance_total (fuel : Nat) (o : Obs ℝ) : ∃ out, Gen.Lin.distance fuel o = .ok out := by
+  simp [Gen.Lin.distance]
+
+/-! ## direction (with the orientation unknown) -/
+
+theorem direction_coeff (fuel : Nat) (o : Obs ℝ) (out : LinOut ℝ) (h : ¬ hdist o < CUT)
+    (hok : Gen.Lin.direction fuel o = .ok out) :
+    ∀ p ∈ out.pushes, IsPartialBearing (fun o => (dX o, dY o)) (fun o => o.orientation) o p.1 p.2.1 p.2.2 :=
+  Lin.direction_coeff fuel o out h hok
+
+theorem direction_rhs (fuel : Nat) (o : Obs ℝ) (out : LinOut ℝ) (h : ¬ hdist o < CUT)
+    (hok : Gen.Lin.direction fuel o = .ok out) :
+    IsWrapOf ((o.value + o.orientation - brg (dX o) (dY o)) * R2CC) out.rhs :=
+  (Lin.direction_ok fuel o out h hok).1
+
+theorem direction_only_free (fuel : Nat) (o : Obs ℝ) (out : LinOut ℝ) (h : ¬ hdist o < CUT)
+    (hok : Gen.Lin.direction fuel o = .ok out) :
+    targets out.pushes =
+      [(.station, .ori), (.pfrom, .y), (.pfrom, .x), (.pto, .y), (.pto, .x)].filter (freeAt o) :=
+  (Lin.direction_targets fuel o out h hok).1
+
+theorem direction_terminates (o : Obs ℝ) (h : ¬ hdist o < CUT) :
+    ∃ fuel out, Gen.Lin.direction fuel o = .ok out := Lin.direction_terminates o h
+
+/-- the code's bearing is a polar angle of the sight, in `[0, 2π)` -/
+theorem bearing_is_polar_angle (x y : ℝ) : IsPolarAngle x y (brg x y) ∧ 0 ≤ brg x y ∧ brg x y < 2 * π :=
+  ⟨isPolarAngle_brg x y, brg_nonneg x y, brg_lt_two_pi x y⟩
+
+/-! ## azimuth -/
+
+theorem azimuth_coeff (fuel : Nat) (o : Obs ℝ) (out : LinOut ℝ) (h : ¬ hdist o < CUT)
+    (hok : Gen.Lin.azimuth fuel o = .ok out) :
+    ∀ p ∈ out.pushes, IsPartialBearing (fun o => (dX o, dY o)) (fun o => o.xNorth) o p.1 p.2.1 p.2.2 :=
+  Lin.azimuth_coeff fuel o out h hok
+
+theorem azimuth_rhs (fuel : Nat) (o : Obs ℝ) (out : LinOut ℝ) (h : ¬ hdist o < CUT)
+    (hok : Gen.Lin.azimuth fuel o = .ok out) :
+    IsWrapOf ((o.value + o.xNorth - brg (dX o) (dY o)) * R2CC) out.rhs :=
+  (Lin.azimuth_ok fuel o out h hok).1
+
+theorem azimuth_only_free (fuel : Nat) (o : Obs ℝ) (out : LinOut ℝ) (h : ¬ hdist o < CUT)
+    (hok : Gen.Lin.azimuth fuel o = .ok out) :
+    targets out.pushes = [(.pfrom, .y), (.pfrom, .x), (.pto, .y), (.pto, .x)].filter (freeAt o) :=
+  (Lin.azimuth_targets fuel o out h hok).1
+
+theorem azimuth_terminates (o : Obs ℝ) (h : ¬ hdist o < CUT) :
+    ∃ fuel out, Gen.Lin.azimuth fuel o = .ok out := Lin.azimuth_terminates o h
+
+/-! ## angle (bs = `to`, fs) -/
+
+theorem angle_coeff (fuel : Nat) (o : Obs ℝ) (out : LinOut ℝ) (h : ¬ hdist o < CUT) (h' : ¬ hdist2 o < CUT)
+    (hok : Gen.Lin.angle fuel o = .ok out) :
+    ∀ p ∈ out.pushes, IsPartialAngle o p.1 p.2.1 p.2.2 := Lin.angle_coeff fuel o out h h' hok
+
+theorem angle_rhs (fuel : Nat) (o : Obs ℝ) (out : LinOut ℝ) (h : ¬ hdist o < CUT) (h' : ¬ hdist2 o < CUT)
+    (hok : Gen.Lin.angle fuel o = .ok out) :
+    IsWrapOf ((o.value - angleBsFs o) * R2CC) out.rhs := (Lin.angle_ok fuel o out h h' hok).1
+
+theorem angle_only_free (fuel : Nat) (o : Obs ℝ) (out : LinOut ℝ) (h : ¬ hdist o < CUT) (h' : ¬ hdist2 o < CUT)
+    (hok : Gen.Lin.angle fuel o = .ok out) :
+    targets out.pushes =
+      [(.pfrom, .y), (.pfrom, .x), (.pto, .y), (.pto, .x), (.pfs, .y), (.pfs, .x)].filter (freeAt o) :=
+  (Lin.angle_targets fuel o out h h' hok).1
+
+theorem angle_terminates (o : Obs ℝ) (h : ¬ hdist o < CUT) (h' : ¬ hdist2 o < CUT) :
+    ∃ fuel out, Gen.Lin.angle fuel o = .ok out := Lin.angle_terminates o h h'
+
+/-! ## slope distance -/
+
+theorem s_distance_coeff (fuel : Nat) (o : Obs ℝ) (out : LinOut ℝ)
+    (hok : Gen.Lin.s_distance fuel o = .ok out) :
+    ∀ p ∈ out.pushes, IsPartial MM sdist o p.1 p.2.1 p.2.2 := Lin.s_distance_coeff fuel o out hok
+
+theorem s_distance_rhs (fuel : Nat) (o : Obs ℝ) (out : LinOut ℝ)
+    (hok : Gen.Lin.s_distance fuel o = .ok out) : out.rhs = MM * (o.value - sdist o) :=
+  (Lin.s_distance_rhs fuel o out hok).2
+
+theorem s_distance_only_free (fuel : Nat) (o : Obs ℝ) (out : LinOut ℝ)
+    (hok : Gen.Lin.s_distance fuel o = .ok out) :
+    targets out.pushes =
+      [(.pfrom, .y), (.pfrom, .x), (.pfrom, .z), (.pto, .y), (.pto, .x), (.pto, .z)].filter (freeAt o) :=
+  (Lin.s_distance_targets fuel o out hok).1
+
+/-- the exclusion is exactly the code's: it throws iff the slope distance is zero -/
+theorem s_distance_throws_iff (fuel : Nat) (o : Obs ℝ) :
+    Gen.Lin.s_distance fuel o = .error .zeroSlopeDistance ↔ sdist o = 0 := by
+  rw [Lin.s_distance_eq]; split <;> simp [*]
+
+/-! ## zenith angle -/
+
+/-- the coefficients are the partial derivatives of the value the right-hand side is formed
+    with: the zenith angle `arccos(Δz/s)` for readings ≤ 200 gon, `2π − arccos(Δz/s)` for
+    second-face readings -/
+theorem z_angle_coeff (fuel : Nat) (o : Obs ℝ) (out : LinOut ℝ)
+    (hok : Gen.Lin.z_angle fuel o = .ok out) :
+    ∀ p ∈ out.pushes, IsPartial R2CC zenithComputed o p.1 p.2.1 p.2.2 := Lin.z_angle_coeff fuel o out hok
+
+theorem z_angle_rhs (fuel : Nat) (o : Obs ℝ) (out : LinOut ℝ)
+    (hok : Gen.Lin.z_angle fuel o = .ok out) : out.rhs = R2CC * (o.value - zenithComputed o) :=
+  (Lin.z_angle_rhs fuel o out hok).2
+
+theorem z_angle_only_free (fuel : Nat) (o : Obs ℝ) (out : LinOut ℝ)
+    (hok : Gen.Lin.z_angle fuel o = .ok out) :
+    targets out.pushes =
+      [(.pfrom, .y), (.pfrom, .x), (.pfrom, .z), (.pto, .y), (.pto, .x), (.pto, .z)].filter (freeAt o) :=
+  (Lin.z_angle_targets fuel o out hok).1
+
+theorem z_angle_throws_iff (fuel : Nat) (o : Obs ℝ) :
+    Gen.Lin.z_angle fuel o = .error .zeroZenithAngle ↔ (hdist o = 0 ∨ sdist o = 0) := by
+  rw [Lin.z_angle_eq]; split <;> simp [*]
+
+/-! ## height and coordinate differences, observed coordinates -/
+
+theorem h_diff_correct (fuel : Nat) (o : Obs ℝ) :
+    ∃ out, Gen.Lin.h_diff fuel o = .ok out ∧ out.rhs = MM * (o.value - dZ o) ∧
+      targets out.pushes = [(.pfrom, .z), (.pto, .z)].filter (freeAt o) ∧
+      ∀ p ∈ out.pushes, IsPartial MM dZ o p.1 p.2.1 p.2.2 := by
+  refine ⟨_, Lin.h_diff_eq fuel o, by simp [MM]; ring, ?_, ?_⟩
+  · cases hf : o.pfrom.free_z <;> cases ht : o.pto.free_z <;> simp [LinOut.pushes, pushes, targets, hf, ht, List.filter]
+  · obtain ⟨h1, h2⟩ := Lin.dZ_partials o
+    cases o.pfrom.free_z <;> cases o.pto.free_z <;> simp [LinOut.pushes, pushes, *]
+
+theorem zdiff_correct (fuel : Nat) (o : Obs ℝ) :
+    ∃ out, Gen.Lin.zdiff fuel o = .ok out ∧ out.rhs = MM * (o.value - dZ o) ∧
+      targets out.pushes = [(.pfrom, .z), (.pto, .z)].filter (freeAt o) ∧
+      ∀ p ∈ out.pushes, IsPartial MM dZ o p.1 p.2.1 p.2.2 := by
+  refine ⟨_, Lin.zdiff_eq fuel o, by simp [MM]; ring, ?_, ?_⟩
+  · cases hf : o.pfrom.free_z <;> cases ht : o.pto.free_z <;> simp [LinOut.pushes, pushes, targets, hf, ht, List.filter]
+  · obtain ⟨h1, h2⟩ := Lin.dZ_partials o
+    cases o.pfrom.free_z <;> cases o.pto.free_z <;> simp [LinOut.pushes, pushes, *]
+
+theorem xdiff_correct (fuel : Nat) (o : Obs ℝ) :
+    ∃ out, Gen.Lin.xdiff fuel o = .ok out ∧ out.rhs = MM * (o.value - dX o) ∧
+      targets out.pushes = [(.pfrom, .x), (.pto, .x)].filter (freeAt o) ∧
+      ∀ p ∈ out.pushes, IsPartial MM dX o p.1 p.2.1 p.2.2 := by
+  refine ⟨_, Lin.xdiff_eq fuel o, by simp [MM]; ring, ?_, ?_⟩
+  · cases hf : o.pfrom.free_xy <;> cases ht : o.pto.free_xy <;> simp [LinOut.pushes, pushes, targets, hf, ht, List.filter]
+  · obtain ⟨h1, h2⟩ := Lin.dX_partials o
+    cases o.pfrom.free_xy <;> cases o.pto.free_xy <;> simp [LinOut.pushes, pushes, *]
+
+theorem ydiff_correct (fuel : Nat) (o : Obs ℝ) :
+    ∃ out, Gen.Lin.ydiff fuel o = .ok out ∧ out.rhs = MM * (o.value - dY o) ∧
+      targets out.pushes = [(.pfrom, .y), (.pto, .y)].filter (freeAt o) ∧
+      ∀ p ∈ out.pushes, IsPartial MM dY o p.1 p.2.1 p.2.2 := by
+  refine ⟨_, Lin.ydiff_eq fuel o, by simp [MM]; ring, ?_, ?_⟩
+  · cases hf : o.pfrom.free_xy <;> cases ht : o.pto.free_xy <;> simp [LinOut.pushes, pushes, targets, hf, ht, List.filter]
+  · obtain ⟨h1, h2⟩ := Lin.dY_partials o
+    cases o.pfrom.free_xy <;> cases o.pto.free_xy <;> simp [LinOut.pushes, pushes, *]
+
+theorem x_correct (fuel : Nat) (o : Obs ℝ) :
+    ∃ out, Gen.Lin.x fuel o = .ok out ∧ out.rhs = MM * (o.value - fromX o) ∧
+      targets out.pushes = [(.pfrom, .x)].filter (freeAt o) ∧
+      ∀ p ∈ out.pushes, IsPartial MM fromX o p.1 p.2.1 p.2.2 := by
+  refine ⟨_, Lin.x_eq fuel o, by simp [MM]; ring, ?_, ?_⟩
+  · cases hf : o.pfrom.free_xy <;> simp [LinOut.pushes, pushes, targets, hf, List.filter]
+  · have h1 := Lin.fromX_partial o
+    cases o.pfrom.free_xy <;> simp [LinOut.pushes, pushes, *]
+
+theorem y_correct (fuel : Nat) (o : Obs ℝ) :
+    ∃ out, Gen.Lin.y fuel o = .ok out ∧ out.rhs = MM * (o.value - fromY o) ∧
+      targets out.pushes = [(.pfrom, .y)].filter (freeAt o) ∧
+      ∀ p ∈ out.pushes, IsPartial MM fromY o p.1 p.2.1 p.2.2 := by
+  refine ⟨_, Lin.y_eq fuel o, by simp [MM]; ring, ?_, ?_⟩
+  · cases hf : o.pfrom.free_xy <;> simp [LinOut.pushes, pushes, targets, hf, List.filter]
+  · have h1 := Lin.fromY_partial o
+    cases o.pfrom.free_xy <;> simp [LinOut.pushes, pushes, *]
+
+theorem z_correct (fuel : Nat) (o : Obs ℝ) :
+    ∃ out, Gen.Lin.z fuel o = .ok out ∧ out.rhs = MM * (o.value - fromZ o) ∧
+      targets out.pushes = [(.pfrom, .z)].filter (freeAt o) ∧
+      ∀ p ∈ out.pushes, IsPartial MM fromZ o p.1 p.2.1 p.2.2 := by
+  refine ⟨_, Lin.z_eq fuel o, by simp [MM]; ring, ?_, ?_⟩
+  · cases hf : o.pfrom.free_z <;> simp [LinOut.pushes, pushes, targets, hf, List.filter]
+  · have h1 := Lin.fromZ_partial o
+    cases o.pfrom.free_z <;> simp [LinOut.pushes, pushes, *]
+
+/-! ## the wrap loops -/
+
+/-- what `while (a > 200e4) a -= 400e4; while (a <= -200e4) a += 400e4;` returns, for any
+    decision procedures implementing the two comparisons: congruent mod 400 gon and in the
+    half-open range `(-200 gon, 200 gon]` -/
+theorem wrap_half_open (c1 c2 : ℝ → Bool) (hc1 : ∀ v, c1 v = true ↔ HALF < v)
+    (hc2 : ∀ v, c2 v = true ↔ v ≤ -HALF) (fuel : Nat) (a r1 r : ℝ)
+    (h1 : whileLoop c1 (fun v => v - FULL) fuel a = some r1)
+    (h2 : whileLoop c2 (fun v => v + FULL) fuel r1 = some r) : IsWrapOf a r :=
+  Lin.wrap_spec c1 c2 hc1 hc2 fuel a r1 r h1 h2
+
+/-- the range is half-open: an angular right-hand side is never −200 gon … -/
+theorem rhs_never_minus_half (fuel : Nat) (o : Obs ℝ) (out : LinOut ℝ) (h : ¬ hdist o < CUT) (h' : ¬ hdist2 o < CUT) :
+    (Gen.Lin.direction fuel o = .ok out → out.rhs ≠ -HALF) ∧
+    (Gen.Lin.azimuth fuel o = .ok out → out.rhs ≠ -HALF) ∧
+    (Gen.Lin.angle fuel o = .ok out → out.rhs ≠ -HALF) :=
+  ⟨fun hk => ne_of_gt (Lin.direction_ok fuel o out h hk).1.2.1,
+   fun hk => ne_of_gt (Lin.azimuth_ok fuel o out h hk).1.2.1,
+   fun hk => ne_of_gt (Lin.angle_ok fuel o out h h' hk).1.2.1⟩
+
+/-- … the closed end +200 gon is attained (target due +x read as 200 gon) … -/
+theorem rhs_attains_plus_half :
+    ∃ o out, ¬ hdist o < CUT ∧ Gen.Lin.direction 0 o = .ok out ∧ out.rhs = HALF :=
+  ⟨Lin.eastWitness, Lin.rhs_attains_plus_half⟩
+
+/-- … and the former F12 witness (target due −x read as 0: misclosure exactly −200 gon) is
+    now returned as +200 gon -/
+theorem west_misclosure_maps_to_plus_half :
+    ∃ out, ¬ hdist Lin.westWitness < CUT ∧ Gen.Lin.direction 1 Lin.westWitness = .ok out ∧ out.rhs = HALF :=
+  Lin.west_rhs_is_plus_half
+
+theorem wrap_fuel_irrelevant (c : ℝ → Bool) (f : ℝ → ℝ) (n m : Nat) (a r r' : ℝ)
+    (hn : whileLoop c f n a = some r) (hm : whileLoop c f m a = some r') : r = r' :=
+  Lin.whileLoop_fuel_irrelevant c f n m a r r' hn hm
+
+/-! ## index assignment (`maxn`, index on first use) and array bounds -/
+
+/-- every generated event list touches an unknown before pushing a coefficient for it -/
+theorem pushes_follow_touches (fuel : Nat) (o : Obs ℝ) (out : LinOut ℝ) (h : ¬ hdist o < CUT) (h' : ¬ hdist2 o < CUT) :
+    (Gen.Lin.direction fuel o = .ok out → wellTouched out.evs [] = true) ∧
+    (Gen.Lin.distance fuel o = .ok out → wellTouched out.evs [] = true) ∧
+    (Gen.Lin.angle fuel o = .ok out → wellTouched out.evs [] = true) ∧
+    (Gen.Lin.azimuth fuel o = .ok out → wellTouched out.evs [] = true) ∧
+    (Gen.Lin.s_distance fuel o = .ok out → wellTouched out.evs [] = true) ∧
+    (Gen.Lin.z_angle fuel o = .ok out → wellTouched out.evs [] = true) :=
+  ⟨fun hk => (Lin.direction_targets fuel o out h hk).2, fun hk => (Lin.distance_targets fuel o out h hk).2,
+   fun hk => (Lin.angle_targets fuel o out h h' hk).2, fun hk => (Lin.azimuth_targets fuel o out h hk).2,
+   fun hk => (Lin.s_distance_targets fuel o out hk).2, fun hk => (Lin.z_angle_targets fuel o out hk).2⟩
+
+/-- the index state keeps its invariant (indices handed out are exactly `1..maxn`, one per
+    unknown), `maxn` never decreases and an index once assigned never changes (first use wins) -/
+theorem index_fresh {K : Type} (name : Role → Coord → Unk) (evs : List (Ev K)) (s : IdxState) (h : s.WF) :
+    (runEvs name evs s).1.WF ∧ s.maxn ≤ (runEvs name evs s).1.maxn ∧
+      ∀ v, s.get v ≠ 0 → (runEvs name evs s).1.get v = s.get v := Lin.runEvs_wf name evs s h
+
+theorem index_wf_init : IdxState.init.WF := IdxState.wf_init
+
+/-- every `(index, coeff)` row of an observation whose pushes follow touches has its index in
+    `1..maxn`, i.e. inside the design matrix of `unknowns()` columns -/
+theorem index_in_range {K : Type} (name : Role → Coord → Unk) (evs : List (Ev K)) (s : IdxState) (h : s.WF)
+    (hw : wellTouched evs [] = true) :
+    ∀ row ∈ (runEvs name evs s).2, 1 ≤ row.1 ∧ row.1 ≤ (runEvs name evs s).1.maxn :=
+  Lin.runEvs_rows_in_range name evs s [] h (by simp) hw
+
+/-- at most `max_size = 6` coefficients are pushed: `coeff[6]` / `index[6]` are never overrun -/
+theorem size_le_max (fuel : Nat) (o : Obs ℝ) (out : LinOut ℝ) (h : ¬ hdist o < CUT) (h' : ¬ hdist2 o < CUT) :
+    (Gen.Lin.direction fuel o = .ok out → out.pushes.length ≤ Gen.Lin.coeffCap) ∧
+    (Gen.Lin.angle fuel o = .ok out → out.pushes.length ≤ Gen.Lin.coeffCap) ∧
+    (Gen.Lin.s_distance fuel o = .ok out → out.pushes.length ≤ Gen.Lin.coeffCap) ∧
+    (Gen.Lin.z_angle fuel o = .ok out → out.pushes.length ≤ Gen.Lin.coeffCap) ∧
+    Gen.Lin.coeffCap = Gen.Lin.indexCap ∧ Gen.Lin.maxSize = Gen.Lin.coeffCap := by
+  refine ⟨fun hk => ?_, fun hk => ?_, fun hk => ?_, fun hk => ?_, rfl, rfl⟩
+  · have := congrArg List.length (Lin.direction_targets fuel o out h hk).1
+    simp only [targets, List.length_map] at this
+    rw [this]; exact le_trans (List.length_filter_le _ _) (by decide)
+  · have := congrArg List.length (Lin.angle_targets fuel o out h h' hk).1
+    simp only [targets, List.length_map] at this
+    rw [this]; exact le_trans (List.length_filter_le _ _) (by decide)
+  · have := congrArg List.length (Lin.s_distance_targets fuel o out hk).1
+    simp only [targets, List.length_map] at this
+    rw [this]; exact le_trans (List.length_filter_le _ _) (by decide)
+  · have := congrArg List.length (Lin.z_angle_targets fuel o out hk).1
+    simp only [targets, List.length_map] at this
+    rw [this]; exact le_trans (List.length_filter_le _ _) (by decide)
+
+/-! ## non-vacuity -/
+
+/-- a concrete sight (3-4-5 triangle, both points free) meets the hypotheses of the
+    distance / direction / azimuth theorems and produces all coefficients -/
+example : ∃ o : Obs ℝ, ¬ hdist o < CUT ∧ (∃ out, Gen.Lin.distance 0 o = .ok out ∧ out.pushes.length = 4) ∧
+    (∃ fuel out, Gen.Lin.direction fuel o = .ok out ∧ out.pushes.length = 5) := by
+  have hc : ¬ hdist Lin.face2Witness < CUT := by rw [Lin.face2Witness_hdist]; unfold CUT; norm_num
+  refine ⟨Lin.face2Witness, hc, ⟨_, Lin.distance_eq 0 _ hc, ?_⟩, ?_⟩
+  · simp [LinOut.pushes, pushes, Lin.face2Witness, Pt.free_xy, Status.isFree]
+  · obtain ⟨fuel, out, hk⟩ := Lin.direction_terminates _ hc
+    refine ⟨fuel, out, hk, ?_⟩
+    have := congrArg List.length (Lin.direction_targets fuel _ out hc hk).1
+    simpa [targets, List.filter, Lin.face2Witness, Pt.free_xy, Status.isFree] using this
+
+/-- the zenith theorems' hypothesis (`z_angle` returns) is met with six coefficients -/
+example : ∃ out, Gen.Lin.z_angle 0 Lin.face2Witness = .ok out ∧ out.pushes.length = 6 := by
+  have hh : ¬ (hdist Lin.face2Witness = 0 ∨ sdist Lin.face2Witness = 0) := by
+    rw [Lin.face2Witness_hdist, Lin.face2Witness_sdist]; norm_num
+  have hok := Lin.z_angle_eq 0 Lin.face2Witness
+  rw [if_neg hh] at hok
+  exact ⟨_, hok, by simp [LinOut.pushes, Lin.zangleEvs, pushes, Lin.face2Witness, Pt.free_xy, Pt.free_z, Status.isFree]⟩
+
+/-- former F16 witness (horizontal 5 m sight read as 300 gon): the hypothesis `π < value` of the
+    second-face branch is met and the function returns -/
+example : π < Lin.face2Witness.value ∧ ∃ out, Gen.Lin.z_angle 0 Lin.face2Witness = .ok out := by
+  have hh : ¬ (hdist Lin.face2Witness = 0 ∨ sdist Lin.face2Witness = 0) := by
+    rw [Lin.face2Witness_hdist, Lin.face2Witness_sdist]; norm_num
+  have hok := Lin.z_angle_eq 0 Lin.face2Witness
+  rw [if_neg hh] at hok
+  exact ⟨by simp only [Lin.face2Witness]; linarith [Real.pi_pos], _, hok⟩
+
+/-- an index state after two allocations satisfies the invariant and is non-trivial -/
+example : ((IdxState.init.touch ⟨0, .x⟩).touch ⟨0, .y⟩).WF ∧ ((IdxState.init.touch ⟨0, .x⟩).touch ⟨0, .y⟩).maxn = 2 :=
+  ⟨IdxState.touch_wf (IdxState.touch_wf IdxState.wf_init _) _, by decide⟩
 
 end Gama.Props.C05
